@@ -345,3 +345,45 @@ func VerifHarness_C03_ScanUnicode() {
 		verifReach("nonempty")
 	}
 }
+
+// queries of exactly ten content words (the documented limit of "all of them"), with repeats
+func VerifHarness_C03_ScanTenWords() {
+	vConcreteWords = true
+	db := c03DB(3, 0)
+	db.BuildUniversalIndex()
+	vocab := []string{"aa", "bb", "cc", "dd", "ee", "ff", "gg", "hh", "ii", "jj", "kk"}
+	n := verifIntRange("words", 9, 11)
+	rep := verifIntRange("repeatOf", 0, 2)
+	terms := make([]string, n)
+	for i := range terms {
+		terms[i] = vocab[i]
+	}
+	terms[n-1] = terms[rep] // one word occurs twice
+	res := db.SearchUniversal(strings.Join(terms, " "), SearchOptions{Limit: 8, AllPlatforms: true})
+	if n <= 10 {
+		c03Compare(db, res, c03Reference(db, terms, func(string) float64 { return 1.0 }), "scan, ten-word query")
+	}
+	verifReach("compared")
+	if len(res) > 0 {
+		verifReach("nonempty")
+	}
+}
+
+// per-term boosts that are not positive numbers mean "no boost"
+func VerifHarness_C03_ScanOddBoost() {
+	vConcreteWords = true
+	db := c03DB(2, verifIntRange("shape", 0, 2))
+	db.BuildUniversalIndex()
+	q := []string{"aa", "bb", "cc"}[verifIntRange("query", 0, 2)]
+	b := []float64{-2, 0, math.NaN(), 1.5, math.Inf(-1)}[verifIntRange("boost", 0, 4)]
+	res := db.SearchUniversal(q, SearchOptions{Limit: 8, AllPlatforms: true, ContextBoosts: map[string]float64{q: b}})
+	eff := 1.0
+	if b > 0 {
+		eff = b
+	}
+	c03Compare(db, res, c03Reference(db, []string{q}, func(string) float64 { return eff }), "scan, odd boost")
+	verifReach("compared")
+	if len(res) > 0 {
+		verifReach("nonempty")
+	}
+}
